@@ -69,19 +69,21 @@ def sched_parts(pid: str, tier: str):
             mk("whole-run-N4", Cfg(N=4, resources="tma", max_async=1, monitors=mons), base_req, 1500, 9)
     elif pid == "C05":
         mons = ("C05",)
-        mk("whole-run-N3", Cfg(N=3, resources="tma", monitors=mons), base_req, 600)
+        mk("whole-run-N3", Cfg(N=3, resources="tma", routes="dpt", monitors=mons), base_req, 600)
+        mk("whole-run-N3-nested", Cfg(N=3, resources="tm", nested=True, monitors=mons), base_req, 600)
         if not q:
             mk("whole-run-N4", Cfg(N=4, resources="tma", max_async=1, monitors=mons), base_req, 1500, 9)
     elif pid == "C06":
         mons = ("C06",)
-        mk("whole-run-N3-prio", Cfg(N=3, resources="tm", sym_prio=True, routes="dc", monitors=mons), base_req, 600)
+        mk("whole-run-N3-prio", Cfg(N=3, resources="tm", sym_prio=True, routes="dcp", monitors=mons), base_req, 600)
+        mk("whole-run-N3-prio-nested", Cfg(N=3, resources="t", sym_prio=True, sym_seq=False, nested=True, monitors=mons), base_req, 600)
         mk("whole-run-N3-prio-selection", Cfg(N=3, resources="t", sym_prio=True, sym_seq=False, selection=True, debug_leaf=True, monitors=mons), base_req + ["w_debug_in_subgraph"], 600)
         if not q:
             mk("whole-run-N3-prio-all-resources", Cfg(N=3, resources="tma", sym_prio=True, monitors=mons), base_req, 1500)
             mk("whole-run-N4-prio", Cfg(N=4, resources="tm", sym_prio=True, sym_seq=False, monitors=mons), base_req, 1500, 9)
     elif pid == "C08":
         mons = ("C08",)
-        mk("whole-run-N3", Cfg(N=3, resources="tma", sym_prio=True, routes="dac", monitors=mons), base_req, 600)
+        mk("whole-run-N3", Cfg(N=3, resources="tma", sym_prio=True, routes="dact", monitors=mons), base_req, 600)
         mk("whole-run-N4-threads", Cfg(N=4, resources="t", sym_prio=True, monitors=mons), base_req, 600, 8)
         if not q:
             mk("whole-run-N4", Cfg(N=4, resources="tm", sym_prio=False, monitors=mons), base_req, 1500, 9)
@@ -96,7 +98,7 @@ def sched_parts(pid: str, tier: str):
         if not q:
             mk("whole-run-N4-faults", Cfg(N=4, resources="tma", max_async=1, faults=2, sym_seq=False, monitors=mons), base_req, 1500, 9)
     elif pid == "C17":
-        mons = ("C17", "C01", "C03")
+        mons = ("C17", "C01", "C03", "C04", "C09")
         mk("whole-run-N3-both-flavours", Cfg(N=3, resources="tma", flavours="sa", monitors=mons), base_req, 600)
         from harness.threads import TCfg, run_threads
 
